@@ -14,6 +14,32 @@
  * NanoValue Serialization
  * ======================================================================== */
 
+uint64_t cop_value_size(const NanoValue *val) {
+    switch (val->tag) {
+    case TAG_INT:
+    case TAG_FLOAT:
+    case TAG_OPAQUE:
+        return 1 + 8;
+    case TAG_BOOL:
+        return 1 + 1;
+    case TAG_STRING:
+        return 1 + 4 + (uint64_t)(val->as.string ? val->as.string->length : 0);
+    case TAG_ARRAY: {
+        const VmArray *arr = val->as.array;
+        uint64_t n = 1 + 1 + 4;
+        if (arr) {
+            for (uint32_t i = 0; i < arr->length; i++) {
+                n += cop_value_size(&arr->elements[i]);
+            }
+        }
+        return n;
+    }
+    case TAG_VOID:
+    default:
+        return 1;
+    }
+}
+
 uint32_t cop_serialize_value(const NanoValue *val, uint8_t *buf, uint32_t buf_size) {
     if (buf_size < 1) return 0;
     buf[0] = val->tag;
